@@ -13,6 +13,8 @@ spec: {"service_module", "client", "transport": "grpc"|"grpc_asyncio"|"rest" (re
        "script": ["UNAVAILABLE", "OK", ...]  (one entry per attempt; after the script the server answers "after"),
        "after": "OK"|code, "jitter": "max"|"min"|0.5, "retry": absent | "none" | {initial, maximum, multiplier, codes, deadline},
        "timeout": absent | null | number, "max_attempts_guard": 60}
+spec (paged listing): as a call, plus "pager": {"pages_b64": [serialized page responses...]}: the whole listing is walked
+       (sync: list(pager), asyncio: async for); the OK entries of "script" answer with the successive pages; -> also "items": n
 spec (inspection, no call made): {"inspect": true, "service_module", "client", "transport", "methods": [python names]}
        -> {"ok", "installed": {method: {"retry": None | {cls, initial, maximum, multiplier, deadline, accepts}, "timeout"}}}
 stdout (last line): [{"ok", "error", "attempts": [{"time_remaining", "vnow"}], "sleeps": [...], "uniform": [[a,b]...]}]"""
@@ -148,15 +150,21 @@ def make_client(pkg, spec, target, seen):
 def run_one(spec, gs, pkg, clock, seen):
     is_async = spec["transport"] == "grpc_asyncio"
     kw = call_kwargs(spec, is_async)
+    paged = "pager" in spec
     if is_async:
         async def go():
             client = make_client(pkg, spec, gs.target, seen)
             req = D.resolve(spec["request_cls"])(**(spec.get("request_fields") or {}))
-            return await getattr(client, spec["method"])(request=req, **kw)
+            out = await getattr(client, spec["method"])(request=req, **kw)
+            if paged:
+                # walk the whole listing: every follow-up page is fetched by the pager itself
+                return [x async for x in out]
+            return out
         return asyncio.run(go())
     client = make_client(pkg, spec, gs.target if spec["transport"] != "rest" else gs.http_host, seen)
     req = D.resolve(spec["request_cls"])(**(spec.get("request_fields") or {}))
-    return getattr(client, spec["method"])(request=req, **kw)
+    out = getattr(client, spec["method"])(request=req, **kw)
+    return list(out) if paged else out
 
 
 def inspect_defaults(pkg, spec, gs):
@@ -205,10 +213,16 @@ def main():
                 results.append({"ok": False, "error": D.exc_info(e), "traceback": traceback.format_exc()[-800:]})
             continue
         clock = Clock(spec.get("jitter", "max"))
-        replies = [({"messages": [""]} if c == "OK" else {"code": c}) for c in spec["script"]]
+        # a paged listing: the successive OK answers carry the successive pages (the last page has no next_page_token)
+        pages = list((spec.get("pager") or {}).get("pages_b64", []))
+        last_page = pages[-1] if pages else ""
+
+        def ok_reply():
+            return {"messages": [pages.pop(0) if pages else last_page]}
+        replies = [(ok_reply() if c == "OK" else {"code": c}) for c in spec["script"]]
         gs.set_script({spec["path"]: replies})
         after = spec.get("after", "OK")
-        gs.default_reply = {"messages": [""]} if after == "OK" else {"code": after}
+        gs.default_reply = {"messages": [last_page]} if after == "OK" else {"code": after}
 
         def http_reply(c):
             if c == "OK":
@@ -235,7 +249,9 @@ def main():
             for m in (retry_base, retry_unary, retry_unary_async):
                 m.time.sleep = guarded_sleep
             try:
-                run_one(spec, gs, payload["package"], clock, seen)
+                got = run_one(spec, gs, payload["package"], clock, seen)
+                if "pager" in spec:
+                    rec["items"] = len(got)
             except Exception as e:  # noqa
                 rec["ok"] = False
                 rec["error"] = D.exc_info(e)
